@@ -148,7 +148,7 @@ class BatchSage:
                                   disable=not verbose):
             permutation_chain = [self.feature_names[i]
                                  for i in np.random.permutation(len(self.feature_names))]
-            loss_previous = self._loss_function(y_true=y_i, y_prediction=marginal_prediction)
+            loss_previous = self._loss_function(y_i, marginal_prediction)
             features_not_in_s = set(self.feature_names)
             for feature in permutation_chain:
                 features_not_in_s.remove(feature)
@@ -158,7 +158,7 @@ class BatchSage:
                     n_samples=n_inner_samples
                 )
                 y = _get_mean_model_output(predictions)
-                feature_loss = self._loss_function(y_true=y_i, y_prediction=y)
+                feature_loss = self._loss_function(y_i, y)
                 marginal_contribution = loss_previous - feature_loss
                 sage_values[feature] += marginal_contribution
                 loss_previous = feature_loss
@@ -200,7 +200,7 @@ class BatchSage:
             permutation_chain = [self.feature_names[i]
                                  for i in np.random.permutation(len(self.feature_names))]
             x_s = {}
-            loss_previous = self._loss_function(y_true=y_i, y_prediction=marginal_prediction)
+            loss_previous = self._loss_function(y_i, marginal_prediction)
             for feature in permutation_chain:
                 x_s[feature] = x_i[feature]
                 predictions = []
@@ -209,7 +209,7 @@ class BatchSage:
                     x_marginal = {**x_marginal, **x_s}
                     predictions.append(self._model_function(x_marginal))
                 y = _get_mean_model_output(predictions)
-                feature_loss = self._loss_function(y_true=y_i, y_prediction=y)
+                feature_loss = self._loss_function(y_i, y)
                 marginal_contribution = loss_previous - feature_loss
                 sage_values[feature] += marginal_contribution
                 loss_previous = feature_loss
